@@ -444,19 +444,50 @@ func c08Residue(c *Ctx, p *Prog) {
 	seen := map[string]bool{}
 	eachInstr(fn, func(b *ssa.BasicBlock, in ssa.Instruction) {
 		call, ok := in.(*ssa.Call)
-		if !ok || call.Call.StaticCallee() != mk {
+		if !ok {
 			return
 		}
 		// the Field literal's Key
 		var key string
-		for _, a := range call.Call.Args {
-			if la := loadAddr(a); la != nil {
-				if al, ok := la.(*ssa.Alloc); ok {
-					for _, st := range storesToFieldOf(al, keyF) {
-						key, _ = constString(st.Val)
+		keyOf := func(mkCall *ssa.Call) ssa.Value {
+			var kv ssa.Value
+			for _, a := range mkCall.Call.Args {
+				if la := loadAddr(a); la != nil {
+					if al, ok := la.(*ssa.Alloc); ok {
+						for _, st := range storesToFieldOf(al, keyF) {
+							kv = st.Val
+						}
 					}
 				}
 			}
+			return kv
+		}
+		switch h := call.Call.StaticCallee(); {
+		case h == mk:
+			if kv := keyOf(call); kv != nil {
+				key, _ = constString(kv)
+			}
+		case h != nil && h.Pkg == fn.Pkg && h.Blocks != nil:
+			// a helper that makes the group whose key it is handed (addResidueGroup(s, ".config"))
+			found := false
+			eachInstr(h, func(_ *ssa.BasicBlock, in2 ssa.Instruction) {
+				c2, ok := in2.(*ssa.Call)
+				if !ok || c2.Call.StaticCallee() != mk {
+					return
+				}
+				kv := keyOf(c2)
+				for i, prm := range h.Params {
+					if kv == ssa.Value(prm) && i < len(call.Call.Args) {
+						key, _ = constString(call.Call.Args[i])
+						found = true
+					}
+				}
+			})
+			if !found {
+				return
+			}
+		default:
+			return
 		}
 		flag := want[key]
 		if flag == nil {
